@@ -15,6 +15,7 @@ import (
 	lz4 "github.com/janelia-flyem/go/golz4-updated"
 
 	"github.com/janelia-flyem/dvid/dvid"
+	"verif/harness/dv"
 	"verif/harness/lib"
 )
 
@@ -275,6 +276,10 @@ func main() {
 			fmt.Sscan(string(c.Data), &n)
 			_, sbytes := goSerialize(bigData(n), c.Comp, c.Level, c.Cks)
 			addBigCorrupt(run, sbytes, n, c.Comp, c.Level, c.Cks, c.Pos, c.B)
+		case "kv":
+			kvOpen()
+			addKV(run, int(c.Comp), c.Cks, c.Data)
+			dv.Close()
 		case "serialize":
 			addSer(c.Data, c.Comp, c.Level, c.Cks)
 		case "corrupt":
@@ -399,6 +404,45 @@ func main() {
 		}
 	}
 
+	// the envelope as the keyvalue datatype uses it (datatype/keyvalue/keyvalue.go PutData/GetData): an instance
+	// created with every supported lossless Compression x Checksum setting must hand back exactly the bytes
+	// it was given, whatever they look like (already-compressed streams, stored envelopes, magic prefixes)
+	kvOpen()
+	{
+		sample := []byte("the quick brown fox jumps over the lazy dog, twice: the quick brown fox jumps over the lazy dog")
+		var lookalikes [][]byte
+		for _, comp := range []uint8{1, 2, 4} {
+			if cls, c := libCompress(sample, comp, -1); cls == "ok" {
+				lookalikes = append(lookalikes, c)
+				if len(c) > 6 {
+					lookalikes = append(lookalikes, c[:3+rng.Intn(4)]) // only the magic prefix of a stream
+				}
+			}
+			for _, cks := range []uint8{0, 1} {
+				if cls, s := goSerialize(sample[:20+rng.Intn(20)], comp, -1, cks); cls == "ok" {
+					lookalikes = append(lookalikes, s) // a stored envelope offered as a value
+				}
+			}
+		}
+		lookalikes = append(lookalikes, []byte{}, []byte{0x1f, 0x8b, 0x08}, []byte{0x1f, 0x8b}, []byte{0xff, 0x06, 0x00, 0x00, 's', 'N', 'a', 'P', 'p', 'Y'},
+			[]byte{0x04, 0x22, 0x4d, 0x18, 0x64, 0x40, 0xa7}, []byte("{\"a\":1}"), []byte{0})
+		for si := range kvSettings {
+			for _, cks := range []uint8{0, 1} {
+				for _, v := range lookalikes {
+					addKV(run, si, cks, v)
+				}
+				nr := 2
+				if o.Thorough() {
+					nr = 20
+				}
+				for i := 0; i < nr; i++ {
+					addKV(run, si, cks, rng.Bytes(1+rng.Intn(120)))
+				}
+			}
+		}
+	}
+	dv.Close()
+
 	// illegal parameters
 	addSer([]byte{1, 2, 3}, 3, -1, 0)
 	addSer([]byte{1, 2, 3}, 0, -1, 2)
@@ -485,6 +529,48 @@ func addBigCorrupt(run *lib.Run, sbytes []byte, n int, comp uint8, level int8, c
 	term := fmt.Sprintf("CBigCorrupt %d %d %d %d %s %s", n, comp, cks, pos, lib.CoqBool(libcls != "ok"), cl)
 	run.Count("big-corrupt-result:" + gc)
 	run.Add("big-corrupt", term, jcase{Kind: "big-corrupt", Comp: comp, Level: level, Cks: cks, Pos: pos, B: mask, Data: []byte(fmt.Sprint(n))}, fmt.Sprintf("bigc/%d/%d/%d/%d/%d", n, comp, cks, pos, mask))
+}
+
+// keyvalue instances, one per (compression setting, checksum), created on demand in one repo
+var kvSettings = []string{"none", "snappy", "lz4", "gzip", "gzip:1", "gzip:9"}
+var kvComp = []uint8{0, 1, 4, 2, 2, 2}
+var kvRoot string
+var kvMade = map[string]int{}
+
+func kvOpen() {
+	dv.Quiet()
+	dv.Open()
+	var err error
+	if kvRoot, err = dv.NewRepo("c15"); err != nil {
+		fmt.Fprintln(os.Stderr, "c15: cannot create repo:", err)
+		os.Exit(2)
+	}
+}
+
+func addKV(run *lib.Run, si int, cks uint8, data []byte) {
+	name := fmt.Sprintf("kv%d_%d", si, cks)
+	if _, ok := kvMade[name]; !ok {
+		if err := dv.NewInstance(kvRoot, "keyvalue", name, map[string]string{"Compression": kvSettings[si], "Checksum": []string{"none", "crc32"}[cks]}); err != nil {
+			fmt.Fprintln(os.Stderr, "c15: cannot create keyvalue instance:", err)
+			os.Exit(2)
+		}
+	}
+	kvMade[name]++
+	key := fmt.Sprintf("k%d", kvMade[name])
+	url := "/api/node/" + kvRoot + "/" + name + "/key/" + key
+	pr := dv.Post(url, data)
+	gr := dv.Get(url)
+	cls := "err"
+	switch {
+	case gr.Panic || pr.Panic:
+		cls = "panic"
+	case gr.Status == 200:
+		cls = "ok"
+	}
+	bd := lib.NewBinder()
+	term := bd.Wrap(fmt.Sprintf("CKV %d %d %s %s %s", kvComp[si], cks, bd.Bytes(data), lib.CoqBool(pr.Status == 200), lib.CoqRes(cls, bd.Bytes(gr.Body))))
+	run.Count("kv:" + kvSettings[si] + "/cks:" + fmt.Sprint(cks))
+	run.Add("kv", term, jcase{Kind: "kv", Data: data, Comp: uint8(si), Cks: cks}, fmt.Sprintf("kv/%d/%d/%x/%d", si, cks, crcKey(data), len(data)))
 }
 
 func crcKey(b []byte) uint32 {
